@@ -299,23 +299,106 @@ def recover_names(func):
     return safe
 
 
+# ---- operand order recovery ------------------------------------------------------------------------------------
+COMMUTATIVE = (ast.Mult, ast.BitOr, ast.BitAnd)
+
+
+def _commutative_sites(fn):
+    """Commutative binary operators and symmetric comparisons, innermost first."""
+    out = []
+
+    def rec(n):
+        for c in ast.iter_child_nodes(n):
+            if isinstance(c, (ast.FunctionDef, ast.AsyncFunctionDef, ast.ClassDef, ast.Lambda)):
+                continue
+            rec(c)
+        if isinstance(n, ast.BinOp) and isinstance(n.op, COMMUTATIVE):
+            out.append(n)
+        elif isinstance(n, ast.Compare) and len(n.ops) == 1 and isinstance(n.ops[0], (ast.Eq, ast.NotEq)):
+            out.append(n)
+    rec(fn)
+    return out
+
+
+def commutative_texts(fn):
+    locs = set(_local_names(fn))
+    return sorted({_ph(n, locs) for n in _commutative_sites(fn)})
+
+
+def _swapped(n):
+    c = clone(n)
+    if isinstance(c, ast.BinOp):
+        c.left, c.right = c.right, c.left
+    else:
+        c.left, c.comparators[0] = c.comparators[0], c.left
+    return c
+
+
+def recover_order(func):
+    """Swap back the operands of commutative operators / symmetric comparisons whose swapped spelling (and not the present one)
+    occurs in the reference for this function.  Works on func.node in place (func.node must already be a private clone or is cloned here)."""
+    ref = reference().get('%s:%s#commutative' % (func.rel, func.qualname))
+    if not ref:
+        return 0
+    ref = set(ref)
+    node = clone(func.node)
+    locs = set(_local_names(node))
+    n_swaps = 0
+    for site in _commutative_sites(node):
+        cur = _ph(site, locs)
+        if cur in ref:
+            continue
+        alt = _swapped(site)
+        if _ph(alt, locs) in ref:
+            if isinstance(site, ast.BinOp):
+                site.left, site.right = site.right, site.left
+            else:
+                site.left, site.comparators[0] = site.comparators[0], site.left
+            n_swaps += 1
+    if n_swaps:
+        link_parents(node)
+        node._parent = getattr(func.node, '_parent', None)
+        func.node = node
+        for x in ast.walk(node):
+            x._func = func
+    return n_swaps
+
+
+def _evict(repo, m):
+    """A module whose functions are about to be rewritten must not be shared through the loader's cache."""
+    from . import loader
+    key = getattr(m, '_cache_key', None)
+    if key is not None:
+        loader._MODULE_CACHE.pop(key, None)
+
+
 def apply_tables(repo):
     """Canonicalise, in place, the functions of `repo`: first undo renames of locals through the reference signatures, then
     apply the hand-written role tables (called by the loader)."""
     ref = reference()
-    for key in ref:
+    import hashlib
+    for key in sorted({k.split('#')[0] for k in ref}):
         rel, q = key.split(':', 1)
         m = repo.modules.get(rel)
         if m is not None and q in m.funcs:
             f = m.funcs[q]
+            dg = ref.get(key + '#digest')
+            if dg is not None and dg == hashlib.sha256(ast.dump(f.node, include_attributes=False).encode()).hexdigest()[:16]:
+                continue          # identical to the reference: nothing to undo
+            _evict(repo, m)
+            n_sw = recover_order(f)
             back = recover_names(f)
-            if back:
-                f.roles = dict(getattr(f, 'roles', {}) or {}, **{'recovered': back})
+            if back or n_sw:
+                f.roles = dict(getattr(f, 'roles', {}) or {}, **{'recovered': back, 'operand_swaps_undone': n_sw})
     for (rel, q), table in ROLE_TABLES.items():
         m = repo.modules.get(rel)
         if m is None or q not in m.funcs:
             continue
         f = m.funcs[q]
+        dg = ref.get('%s:%s#digest' % (rel, q))
+        if dg is not None and dg == hashlib.sha256(ast.dump(f.node, include_attributes=False).encode()).hexdigest()[:16]:
+            continue          # reference spelling: the table would rename nothing
+        _evict(repo, m)
         nf, mapping = canonicalize(f, table)
         f.node = nf.node
         for x in ast.walk(f.node):
